@@ -67,6 +67,15 @@ def run_program(env, mon, shape, sorts, Interrupt, initial_time=0, delays=None, 
                     else:
                         ev.callbacks.append(mon.probe(o))
                         yield ev
+                elif op == 'U':
+                    # fire and forget: a timeout nobody waits for still occupies the agenda and moves the clock
+                    d = delay(pi, k_ins)
+                    ev = env.timeout(d)
+                    o = mon.trig('unawaited%d' % pi, env.now + d, 1)
+                    if bare:
+                        o.void = True
+                    else:
+                        ev.callbacks.append(mon.probe(o))
                 elif op == 'S':
                     spawn(ins[1])
                 elif op == 'I':
@@ -146,6 +155,9 @@ def h_prog(cfg):
         fail('no-raise', '%s: %s' % (type(ex).__name__, ex))
         return
     mon.finish()
+    # the agenda is exhausted: the clock stands at the latest due time of anything that was ever scheduled (observed or not)
+    from symx import smax
+    check('c01.final-clock', eq(env.now, smax(*[o.due for o in mon.occs])), 'clock after the run')
     # non-triviality: at least two occurrences took effect at one instant
     if mon.seq >= 2:
         cover('nontrivial')
@@ -196,6 +208,13 @@ def h_negdelay(cfg):
 
 
 HARNESSES = {'prog': h_prog, 'negdelay': h_negdelay}
+
+U_SHAPES = [
+    {'top': 1, 'scripts': [[['U'], ['T']]]},
+    {'top': 2, 'scripts': [[['T'], ['U']], [['T']]]},
+    {'top': 2, 'scripts': [[['U'], ['U']], [['T'], ['T']]]},
+    {'top': 2, 'scripts': [[['T'], ['I', 1], ['U']], [['T'], ['U']]]},
+]
 
 CORE_SHAPES = [
     # three independent timers
@@ -258,6 +277,11 @@ def jobs(tier, seed):
         fixed = {k: lrng.choice([0, 1, 1, 2, 2, 3, 5]) for k in keys if k not in symk}
         js.append({'harness': 'prog', 'cfg': {'shape': sh, 'sorts': 'int', 'until': None, 'fixed': fixed, 'bare': variant % 2 == 1},
                    'weight': 300, 'opts': {'max_seconds': 60 if tier == 'quick' else 300, 'max_paths': 6000}})
+    # timeouts nobody waits for (with and without probe callbacks)
+    for si, sh in enumerate(U_SHAPES):
+        for bare in (False, True):
+            js.append({'harness': 'prog', 'cfg': {'shape': sh, 'sorts': ('int', 'real', 'mixed')[si % 3], 'until': None, 'bare': bare},
+                       'weight': 30})
     for si, sh in enumerate(CORE_SHAPES[:6]):
         js.append({'harness': 'prog', 'cfg': {'shape': sh, 'sorts': ('int', 'real')[si % 2], 'until': None, 'tau': True},
                    'weight': 50})
@@ -269,7 +293,7 @@ def jobs(tier, seed):
 META = {
     'rule': 'one case = one feasible path (input region: an order-type of all due times) of one program '
             'shape; non-trivial = the program triggered at least two occurrences, or a negative delay was refused',
-    'required_labels': ['c01.time', 'c01.order', 'c01.once', 'c01.monotonic', 'c01.all-seen',
+    'required_labels': ['c01.final-clock', 'c01.time', 'c01.order', 'c01.once', 'c01.monotonic', 'c01.all-seen',
                         'c01.neg-refused-only-if-negative', 'c01.until-now'],
     'required_covers': ['nontrivial', 'interrupt-delivered', 'until-stop', 'neg-refused', 'initial-time', 'observed-without-probes', 'long-agenda'],
     'bounds': {
